@@ -35,7 +35,7 @@ def main():
         j = int(args[1]); args = args[2:]
     seeds = args or sorted(os.listdir(os.path.join(V, "seeded")))
     seeds = [s for s in seeds if os.path.exists(os.path.join(V, "seeded", s, "patch.diff"))
-             and "obsolete" not in json.load(open(os.path.join(V, "seeded", s, "meta.json")))]
+             and not ({"obsolete", "not_claimed"} & set(json.load(open(os.path.join(V, "seeded", s, "meta.json")))))]
     missed = 0
     with ThreadPoolExecutor(max_workers=j) as ex:
         for sid, prop, res in ex.map(one, seeds):
